@@ -1,5 +1,6 @@
 #!/bin/bash
-# usage: tools/seedall.sh <ref> <extra seedtest args...> -- runs seedtest for every seeded/* (4 in parallel), log in out/seedall.log
+# usage: tools/seedall.sh <glob under seeded/> <parallelism> <seedtest args...>
 cd "$(dirname "$0")/.."
-ref=$1; shift
-ls -d seeded/*/ | xargs -P 4 -I{} sh -c "python3 tools/seedtest.py {} --ref $ref $* > out/seedlogs/\$(basename {}).log 2>&1; echo \$(basename {}) done" 
+pat=$1; par=$2; shift; shift
+mkdir -p out/seedlogs
+ls -d seeded/$pat/ | xargs -P $par -I{} sh -c "python3 tools/seedtest.py {} $* > out/seedlogs/\$(basename {}).log 2>&1; echo \$(basename {}) done"
